@@ -258,6 +258,8 @@ def load_known(pid):
 # --------------------------------------------------------------------------
 
 class Run:
+    partial = False
+
     def __init__(self, pid, tier, only=None, keep=False, jobs_n=None):
         self.pid = pid
         self.tier = tier
@@ -547,6 +549,8 @@ class Run:
         jobs = mod.jobs(self.tier)
         if self.only:
             jobs = [j for j in jobs if re.search(self.only, j["name"])]
+            if not jobs and self.tier != "thorough":
+                jobs = [j for j in mod.jobs("thorough") if re.search(self.only, j["name"])]
         names = [j["name"] for j in jobs]
         assert len(set(names)) == len(names), "duplicate job names"
         known = load_known(self.pid)
@@ -573,7 +577,7 @@ class Run:
         violations = []
         known_hits = []
         undecided = [r for r in results if r["status"] == "undecided"]
-        if os.path.isdir(self.replay_dir):
+        if os.path.isdir(self.replay_dir) and not getattr(self, "partial", False):
             shutil.rmtree(self.replay_dir, ignore_errors=True)
         for r in results:
             if r["status"] != "failed":
@@ -653,8 +657,9 @@ class Run:
             "violations": len(violations),
         }
         os.makedirs(os.path.join(VERIF, "evidence"), exist_ok=True)
-        with open(os.path.join(VERIF, "evidence", self.pid + ".json"), "w") as fh:
-            json.dump(ev, fh, indent=1)
+        if not getattr(self, "partial", False):   # --only / --replay runs never overwrite the evidence
+            with open(os.path.join(VERIF, "evidence", self.pid + ".json"), "w") as fh:
+                json.dump(ev, fh, indent=1)
 
         for k, f in known_hits:
             print("KNOWN-FINDING: property=%s %s [%s]" % (self.pid, k["what"], f["key"]))
@@ -739,9 +744,15 @@ def main(argv):
     ap.add_argument("--tier", default=os.environ.get("VERIF_TIER", "quick"))
     ap.add_argument("--only", default=None, help="regex on job names (debugging; evidence then partial)")
     ap.add_argument("--keep", action="store_true")
+    ap.add_argument("--replay", default=None, help="path of a replay.json written by an earlier run: re-run its job and native replay")
     ap.add_argument("-j", type=int, default=None)
     a = ap.parse_args(argv)
+    if a.replay:
+        rj = json.load(open(a.replay))
+        a.only = "^" + re.escape(rj["job"]) + "$"
+        log("replaying job %s (obligation %s)" % (rj["job"], rj["failed_obligation"]))
     run = Run(a.pid, a.tier, a.only, a.keep, a.j)
+    run.partial = bool(a.only)
     try:
         rc = run.main()
     finally:
